@@ -46,6 +46,9 @@ func init() {
 	mutant(&Mutant{Name: "c10-padding-box-position-stale", Property: "C10", File: "css/css.go",
 		Old: "\t\t\t\t\t\t\tiPaddingBox = -1 // both are removed, the position no longer refers to padding-box\n", New: "",
 		Rule: "R10.5", Construct: "iPaddingBox after the deletion"})
+	mutant(&Mutant{Name: "c10-command-output-file-left-behind", Property: "C10", File: "minify.go",
+		Old: "\t\t\tdefer os.Remove(out.Name())\n", New: "",
+		Rule: "R10.13", Construct: "temporary file out removed before returning"})
 	mutant(&Mutant{Name: "c10-css-function-nesting-unbounded", Property: "C10", File: "css/css.go",
 		Old: "\tif 100 < depth {\n\t\treturn nil, 0 // too deeply nested\n\t}\n", New: "",
 		Rule: "R10.12", Construct: "parseFunction/recursion depth bounded"})
@@ -84,6 +87,7 @@ func runC10(c *Ctx) {
 	c.r109()
 	c.r1011()
 	c.r1012()
+	c.r1013()
 	// a look-ahead past the end of the input must not index past the token buffer (clause (e) of the token buffer rules)
 	c.alsoUnder(map[string]string{"R03.5": "R10.10", "R05.12": "R10.10", "R06.8": "R10.10"}, func(construct string) bool {
 		return strings.Contains(construct, "index clamped") || strings.Contains(construct, "early ends of the read loop")
